@@ -12,6 +12,8 @@ CONSTANTS
   CertBoxY = 3
   SearchCap = 600
   CheckBox = 0
+  Forms = {}
+  Canon = "strict"
 INVARIANT Verdict
 INVARIANT TypeOK
 CHECK_DEADLOCK FALSE
